@@ -965,3 +965,30 @@ func (w *World) ArchiveL0() {
 		_ = os.Chtimes(dst, f.Mod, f.Mod)
 	}
 }
+
+// TraceState renders the WAL and replica state for debugging output.
+func (w *World) TraceState() string {
+	b := w.ReadWAL()
+	d := refwal.Decode(b)
+	s := fmt.Sprintf("wal=%dB", len(b))
+	if d.HeaderOK {
+		s += fmt.Sprintf(" salt=%08x frames(valid=%d committed=%d total=%d)", d.Salt1, len(d.Valid), d.CommittedFrames(), d.TotalFrames)
+	}
+	if fi, err := os.Stat(w.DBPath); err == nil {
+		s += fmt.Sprintf(" dbpages=%d", fi.Size()/int64(w.Cfg.PageSize))
+	}
+	if w.DB != nil {
+		if pos, err := w.DB.Pos(); err == nil {
+			s += fmt.Sprintf(" pos=%d", pos.TXID)
+		}
+	}
+	s += " replica="
+	for _, f := range ListLTX(w.ReplicaDir) {
+		if f.Level == 0 {
+			continue
+		}
+		s += fmt.Sprintf("L%d:%d-%d ", f.Level, f.Min, f.Max)
+	}
+	s += fmt.Sprintf("L0max=%d", MaxL0(w.ReplicaDir))
+	return s
+}
